@@ -23,11 +23,13 @@ from . import c12_vec as VEC
 from . import c12_link as LNK
 from . import c12_copy as CPY
 from . import c12_prop as PRP
+from . import c12_role as ROLE
 from ..extract import writeorder as _wo
 from ..extract import mutorder as _mo
 from ..extract import linkorder as _lo
 from ..extract import copyorder as _co
 from ..extract import propcreate as _pc
+from ..extract import roleorder as _ro
 from ..extract import frameshape as _fs         # C16's translator of data_frame.py: frame_write_refused_unchanged rests on it
 from ..extract import datasetshape as _ds       # C01's compiler of data_set.py: append_refused_unchanged rests on it
 
@@ -84,6 +86,19 @@ THEOREMS = [
     "Nix.C12.data_history_skips_refused",
     "Nix.C12.frame_write_refused_unchanged",
     "Nix.C12.frame_history_skips_refused",
+    "Nix.C12.role_sound",
+    "Nix.C12.role_setters_safe",
+    "Nix.C12.role_setter_refused_unchanged",
+    "Nix.C12.multi_tag_extents_refused_unchanged",
+    "Nix.C12.multi_tag_positions_refused_unchanged",
+    "Nix.C12.feature_data_refused_unchanged",
+    "Nix.C12.section_link_refused_unchanged",
+    "Nix.C12.metadata_refused_unchanged",
+    "Nix.C12.multi_tag_extents_accepted",
+    "Nix.C12.flattened_extents_counterexample",
+    "Nix.C12.create_link_file_test_counterexample",
+    "Nix.C12.dimension_link_object_refused_unchanged_partial",
+    "Nix.C12.dimension_link_object_refused_unchanged_counterexample",
 ]
 ASSUMPTIONS = [
     "uuid4 ids are drawn from an abstract fresh supply; no link of the file is named like an id not yet drawn "
@@ -213,6 +228,7 @@ def extract(repo):
     files.update(_lo.extract(repo))
     files.update(_co.extract(repo))
     files.update(_pc.extract(repo))
+    files.update(_ro.extract(repo))
     files.update(_ds.extract(repo))
     files.update(_fs.extract(repo))
     return files
@@ -555,7 +571,7 @@ class Gen12(storegen.Gen):
             self.do(["create_block", "b0", "t"])
             return "setup"
         kind = rng.choice(["da_fault", "da_fault", "tag_fault", "mtag", "mtag", "dim", "dim", "name", "name",
-                           "feature", "link", "extend", "extend", "role", "index"])
+                           "feature", "link", "extend", "extend", "role", "role", "index"])
         b = rng.choice(blocks)
         if kind in ("da_fault", "tag_fault"):
             what = "data_array" if kind == "da_fault" else "tag"
@@ -700,11 +716,34 @@ class Gen12(storegen.Gen):
                         [owner.path, cn])
             return "extend:" + bad
         if kind == "role":
-            e = self.pick(ents)
-            other = self.pick(ents)
-            self.around(["set_role", e.path, rng.choice(["metadata", "positions", "extents", "data", "link"]),
-                         other.path if rng.random() < 0.85 else None])
-            return "role"
+            # a refusable value for a role link, in most cases WHILE A PREVIOUS VALUE EXISTS (assigned just before)
+            role = rng.choice(["extents", "extents", "positions", "data", "metadata", "link", "any"])
+            if role == "any":
+                e, other = self.pick(ents), self.pick(ents)
+                self.around(["set_role", e.path, rng.choice(["metadata", "positions", "extents", "data", "link"]),
+                             other.path if rng.random() < 0.85 else None])
+                return "role:any"
+            okind = {"extents": "multi_tag", "positions": "multi_tag", "data": "feature", "link": "section",
+                     "metadata": rng.choice(["block", "group", "data_array", "tag", "multi_tag", "source"])}[role]
+            owner = self.pick(ents, okind)
+            if owner is None:
+                return "role:noowner"
+            vkind = "section" if role in ("metadata", "link") else "data_array"
+            good = self.pick(ents, vkind, block=None if vkind == "section" else owner.block)
+            if good is not None and rng.random() < 0.75:
+                self.do(["set_role", owner.path, role, good.path])
+            bad = rng.choice(["foreign", "foreign", "kind", "kind", "none"])
+            if bad == "foreign" and vkind == "data_array":
+                cand = [x for x in ents if x.kind == "data_array" and x.block != owner.block]
+            elif bad == "none":
+                cand = []
+            else:
+                cand = [x for x in ents if x.kind != vkind and x.kind not in ("feature", "property")]
+            val = rng.choice(cand).path if cand else None
+            self.around(["set_role", owner.path, role, val],
+                        ["set_role", owner.path, role, good.path] if good is not None else None)
+            self.do(["role", owner.path, role])
+            return "role:%s:%s" % (role, bad if cand or bad == "none" else "none")
         e = self.pick(ents)
         owner_path, cname = e.path[:-2], e.path[-2]
         key = rng.choice([{"p": 99}, {"p": -99}, {"s": "nope"}, {"s": "0f" * 16}, {"o": self.pick(ents).path}])
@@ -888,8 +927,50 @@ def correspondence(ctx):
     finally:
         pscene.close()
     total += n_prop
+    # role links: the setters (and the object a dimension is asked to link) against Pure/RoleWrite.lean on
+    # Generated/RoleOrder.lean - every setter x previous link or none x every class / place of the offered object
+    rcases = ROLE.all_cases()
+    rrng = random.Random("%s/role/%d" % (PROP, ctx.seed))
+    if ctx.tier == "quick":
+        rcases = rrng.sample(rcases, min(len(rcases), 220))
+    rcases.sort(key=lambda c: (not c["linked"], c["setter"]))
+    rdist = {"refused": 0, "accepted": 0}
+    rpath = ctx.tmpfile("c12-role.nix")
+    rf = rc = None
+    try:
+        with ticking_clock():
+            ops, results = [], []
+            for c in rcases:
+                if rf is None:
+                    rf, rc = _scene_file(ctx, rpath)
+                ops.append(ROLE.abstract(rc, c))
+                i, changed = _quiet(lambda: ROLE.run(rc, c))
+                results.append(i)
+                rdist["refused" if i["err"] else "accepted"] += 1
+                rdist[c["setter"]] = rdist.get(c["setter"], 0) + 1
+                seen.add(core.canon(["role", c]))
+                if changed:
+                    _close_scene(rf, rc, rpath)
+                    rf = rc = None
+        rmodel = core.run_driver(PROP, ops)
+        for c, o, m, i in zip(rcases, ops, rmodel, results):
+            if ROLE.canon_model(m, c) != ROLE.canon_impl(i):
+                disagreements.append(Disagreement({"role_case": c, "abstraction": o}, ROLE.canon_model(m, c),
+                                                  dict(ROLE.canon_impl(i), error=i["err"])))
+    finally:
+        if rf is not None:
+            _close_scene(rf, rc, rpath)
+    total += len(rcases)
     return {"evaluations": total, "distinct_nontrivial": len(seen),
-            "rule": "(000) create_property / Section[key] = values with 13 names x 22 values (classes of the values: harness "
+            "rule": "(0000) role links: MultiTag.positions / extents, Feature.data (array, tagged / frame, untagged), "
+                    "Section.link and the seven metadata setters on an owner that has the link or (where the link is "
+                    "optional) has none, offered one of 29 objects (arrays / frames / sections held by the owner's block, "
+                    "of the other block, of ANOTHER OPEN FILE, deleted again; None, numbers, text, entities of other "
+                    "classes, ids of sections / arrays / of nothing, a list), and Dimension.link_data_array / "
+                    "link_data_frame on a linked range dimension with an object of this block / the other block / another "
+                    "file: refused or accepted (error class), the role link afterwards (none / previous target / new "
+                    "target, HDF5 object addresses), target_type, updated_at moved - against Pure/RoleWrite.lean run on "
+                    "Generated/RoleOrder.lean. (000) create_property / Section[key] = values with 13 names x 22 values (classes of the values: harness "
                     "table VALUES) - refused or accepted, properties of the section read with h5py, the existing property "
                     "untouched, name / id / stamps of a new one - against Pure/PropCreate.lean run on "
                     "Generated/PropCreateOrder.lean. (00) copies: create_data_array / create_tag / create_block / create_property with copy_from, "
@@ -925,7 +1006,8 @@ def correspondence(ctx):
                     "op (canonical JSON) whose result is an error or a non-empty value",
             "samples": samples,
             "distribution": {"ops": dist, "impl_errors": errs, "injected": inj, "refused_mutating_calls": refused_mut,
-                             "vector_cases": vdist, "link_cases": ldist, "copy_cases": cdist, "property_cases": pdist},
+                             "vector_cases": vdist, "link_cases": ldist, "copy_cases": cdist, "property_cases": pdist,
+                             "role_cases": rdist},
             "disagreements": disagreements, "exhaustive": False}
 
 
@@ -1001,8 +1083,48 @@ def _build(f, long=False):
     sl.link_data_frame(df, 1)
     rl = dy.append_range_dimension()
     rl.link_data_array(d1, [-1])
-    return dict(dy=dy, sl=sl, rl=rl, fsrc=fsrc, f=f, b=b, b2=b2, da=da, d1=d1, ds=ds, dx=dx, da2=da2, df=df, df2=df2, t=t, mt=mt, g=g, src=src,
+    # entities whose role links / link-valued attributes all HAVE a value: a refused re-assignment has something to lose
+    xf = b2.create_data_frame("xf", "t", col_dict={"a": int, "s": str}, data=rows[:2])
+    mte = b.create_multi_tag("mte", "t", positions=d1, extents=dx)
+    mte.create_feature(df, "untagged")
+    sk = s.create_section("linked", "t")
+    sk.link = s2
+    for ent in (mte, t, d1, df, g, src):
+        ent.metadata = s2
+    # deleted again when the scene is opened (`_stale`)
+    b.create_data_array("dead", "t", data=[1.0, 2.0, 3.0])
+    b.create_data_frame("deadf", "t", col_dict={"a": int, "s": str}, data=rows[:2])
+    s.create_section("deads", "t")
+    return dict(xf=xf, mte=mte, fte=mte.features[0], sk=sk, dy=dy, sl=sl, rl=rl, fsrc=fsrc, f=f, b=b, b2=b2, da=da, d1=d1, ds=ds, dx=dx, da2=da2, df=df, df2=df2, t=t, mt=mt, g=g, src=src,
                 src2=src2, s=s, s2=s2, pr=pr, ps=ps, pf=pf, ft=ft, sd=sd, rd=rd, sm=sm, long=long)
+
+
+def _build_other(f):
+    """a second file, open next to the scene: its entities are of the right kind but can never be linked"""
+    b = f.create_block("b", "t")
+    b.create_data_array("d1", "t", data=[0.0, 1.0, 2.0])
+    b.create_data_frame("df", "t", col_dict={"a": int, "s": str}, data=[(1, "u"), (2, "v")])
+    b.create_tag("tg", "t", [0.0])
+    b.create_source("src", "t")
+    f.create_section("s", "t").create_section("sub", "t")
+
+
+def _fetch_other(f):
+    b = f.blocks["b"]
+    return dict(of=f, ofb=b, ofd=b.data_arrays["d1"], off=b.data_frames["df"], oft=b.tags["tg"], ofsrc=b.sources["src"],
+                ofs=f.sections["s"], ofs2=f.sections["s"].sections["sub"])
+
+
+def _stale(c):
+    """handles of entities that are deleted again (before any snapshot is taken).  The template holds the entities;
+    they are unlinked with h5py (what nixio's deletion does to an entity nothing else links to, without its walk
+    through the whole file)"""
+    b, s, h5 = c["b"], c["s"], c["f"]._h5file
+    out = dict(dead_da=b.data_arrays["dead"], dead_df=b.data_frames["deadf"], dead_s=s.sections["deads"])
+    del h5["data/b/data_arrays/dead"]
+    del h5["data/b/data_frames/deadf"]
+    del h5["metadata/s/sections/deads"]
+    return out
 
 
 def _fetch(f, long=False):
@@ -1011,7 +1133,8 @@ def _fetch(f, long=False):
     da, d1, ds, dx, dy = (b.data_arrays[n] for n in ("da", "d1", "ds", "dx", "dy"))
     t, s = b.tags["tg"], f.sections["s"]
     src = b.sources["src"]
-    return dict(dy=dy, sl=dy.dimensions[0], rl=dy.dimensions[1], fsrc=b2.sources["zz"], f=f, b=b, b2=b2, da=da, d1=d1, ds=ds,
+    mte = b.multi_tags["mte"]
+    return dict(xf=b2.data_frames["xf"], mte=mte, fte=mte.features[0], sk=s.sections["linked"],dy=dy, sl=dy.dimensions[0], rl=dy.dimensions[1], fsrc=b2.sources["zz"], f=f, b=b, b2=b2, da=da, d1=d1, ds=ds,
                 dx=dx, da2=b2.data_arrays["x"], df=b.data_frames["df"], df2=b.data_frames["df2"], t=t, mt=b.multi_tags["mt"],
                 g=b.groups["g"], src=src, src2=src.sources["deep"], s=s, s2=s.sections["sub"], pr=s.props["p"],
                 ps=s.props["ps"], pf=s.props["pf"], ft=t.features[0], sd=da.dimensions[0], rd=da.dimensions[1],
@@ -1035,10 +1158,44 @@ def _scene_file(ctx, path, long=False):
         with open(tpath, "rb") as fh:
             _TEMPLATES[long] = fh.read()
         os.remove(tpath)
+    if "other" not in _TEMPLATES:
+        tpath = ctx.tmpfile("c12-template-other.nix")
+        tf = nixio.File.open(tpath, nixio.FileMode.Overwrite)
+        try:
+            _quiet(lambda: _build_other(tf))
+        finally:
+            tf.close()
+        with open(tpath, "rb") as fh:
+            _TEMPLATES["other"] = fh.read()
+        os.remove(tpath)
     with open(path, "wb") as fh:
         fh.write(_TEMPLATES[long])
+    with open(path + ".other", "wb") as fh:
+        fh.write(_TEMPLATES["other"])
     f = nixio.File.open(path, nixio.FileMode.ReadWrite)
-    return f, _fetch(f, long)
+    try:
+        c = _fetch(f, long)
+        c.update(_quiet(lambda: _stale(c)))
+        c.update(_fetch_other(nixio.File.open(path + ".other", nixio.FileMode.ReadWrite)))
+    except BaseException:
+        f.close()
+        raise
+    return f, c
+
+
+def _close_scene(f, c, path):
+    """close the scene's file and its companion, remove both"""
+    for fl in (f, (c or {}).get("of")):
+        if fl is not None:
+            try:
+                fl.close()
+            except Exception:       # noqa
+                pass
+    for p in (path, path + ".other"):
+        try:
+            os.remove(p)
+        except OSError:
+            pass
 
 
 def _set(o, a, v):
@@ -1249,6 +1406,26 @@ def _catalogue():
     add("RangeDimension.link_data_array:index-no-common-type",
         lambda c: c["rd"].link_data_array(c["da"], [2 ** 70, -1]),
         lambda c: c["rd"].link_data_array(c["da"], [0, -1]))
+    # --- role links / link-valued attributes that HAVE a value: the previous link survives every refusal
+    # (the whole matrix setter x offered object is part of the sweep: c12_sweep.ROLE_TARGETS x ROLE_SPELLINGS)
+    for lab, key, attr, back in SW.ROLE_SETTERS:
+        retry = (lambda c, key=key, attr=attr, back=back: _set(c[key], attr, c[back]))
+        is_sec = attr in ("metadata", "link")
+        for vlab, vkey in ((("section-of-another-file", "ofs"), ("wrong-kind", "d1"), ("deleted-array", "dead_da")) if is_sec else
+                           (("foreign-block", "xf" if key == "fte" else "da2"), ("array-of-another-file", "ofd"),
+                            ("frame-of-another-file", "off"), ("deleted-again", "dead_df" if key == "fte" else "dead_da"),
+                            ("wrong-kind", "t"), ("section", "s"))):
+            add("%s:%s" % (lab, vlab), lambda c, key=key, attr=attr, vkey=vkey: _set(c[key], attr, c[vkey]), retry)
+        if attr != "extents" and attr != "link":
+            add("%s:none" % lab, lambda c, key=key, attr=attr: _set(c[key], attr, None), retry)
+        add("%s:id-text" % lab, lambda c, key=key, attr=attr: _set(c[key], attr, c["ofs"].id), retry)
+    # open finding: a dimension is linked to an object of another file (refused by HDF5 after the link group was built)
+    add("Dimension.link:object-of-another-file:linked-range-array", lambda c: c["rl"].link_data_array(c["ofd"], [-1]),
+        lambda c: c["rl"].link_data_array(c["dx"], [-1]))
+    add("Dimension.link:object-of-another-file:ticks-range-array", lambda c: c["rd"].link_data_array(c["ofd"], [-1]),
+        lambda c: c["rd"].link_data_array(c["dx"], [-1]))
+    add("Dimension.link:object-of-another-file:linked-set-frame", lambda c: c["sl"].link_data_frame(c["off"], 0),
+        lambda c: c["sl"].link_data_frame(c["df2"], 0))
     add("copy:name-taken", lambda c: c["b"].create_data_array(copy_from=c["da"]))
     add("copy:wrong-kind", lambda c: c["b"].create_data_array(copy_from=c["t"]))
     return C
@@ -1324,14 +1501,7 @@ def _run_case(ctx, label, call, retry, tag, light):
     try:
         return _check_call(f, c, label, call, retry, light=light)
     finally:
-        try:
-            f.close()
-        except Exception:       # noqa
-            pass
-        try:
-            os.remove(path)
-        except OSError:
-            pass
+        _close_scene(f, c, path)
 
 
 def _file_bytes(f):
@@ -1420,16 +1590,8 @@ class _Scene:
             return None
 
     def close(self):
-        if self.f is not None:
-            try:
-                self.f.close()
-            except Exception:       # noqa
-                pass
-            self.f = None
-        try:
-            os.remove(self.path)
-        except OSError:
-            pass
+        _close_scene(self.f, self.c, self.path)
+        self.f = self.c = None
 
 
 class _CallTimeout(BaseException):
@@ -1663,11 +1825,7 @@ def _oracle(ctx, broken, hints):
                 fl.input = {"kind": "introspected", "label": label}
                 failures.append(fl)
         finally:
-            try:
-                f1.close()
-            except Exception:       # noqa
-                pass
-            os.remove(path)
+            _close_scene(f1, c1, path)
         i += 1
     intro = list(range(n_intro or 0))
     # (b) hints: the disagreeing histories of the correspondence, replayed with strict snapshots
@@ -1697,7 +1855,8 @@ def _oracle(ctx, broken, hints):
     if broken:
         # a broken obligation: the multi-argument calls first (late validations live there), and the search ends with
         # the third failing input - the large budget is for finding one
-        splan = [p for p in splan if p[1] in SW.VALID] + [p for p in splan if p[1] not in SW.VALID]
+        pri = lambda p: 0 if p[1] in SW.ROLE_TARGETS else 1 if p[1] in SW.VALID else 2       # noqa
+        splan = sorted(splan, key=pri)
     sfail, sstats = sweep(ctx, splan, deadline=time.time() + ctx.budget(150, 900) * (2 if broken else 1),
                           stop_after=3 if broken else None)
     failures += sfail
@@ -1765,14 +1924,25 @@ def _strict_failures(impl, ops, where, ctx=None):
 
 def matches_known(entry, failure):
     cls = entry.get("class")
-    return bool(cls) and isinstance(failure.site, str) and failure.site == cls
+    if not cls or not isinstance(failure.site, str):
+        return False
+    if cls == "Dimension.link:object-of-another-file":
+        # catalogue cases of that label, or the sweep's: a dimension-linking call offered an entity of the second file
+        inp = failure.input if isinstance(failure.input, dict) else {}
+        return failure.site.startswith(cls + ":") or (
+            inp.get("kind") == "sweep" and ".link_data_" in str(inp.get("target")) and
+            str(inp.get("spelling")) in ("entity:ofd", "entity:off"))
+    return failure.site == cls
+
+
+OPEN_CLASSES = ("Dimension.link:object-of-another-file",)
 
 
 def reproduces(ctx, entry):
     label = entry.get("class")
     with ticking_clock():
         for lab, call, retry in _catalogue():
-            if lab == label:
+            if lab == label or (label in OPEN_CLASSES and lab.startswith(label + ":")):
                 fl, _ = run_case(ctx, lab, call, retry, tag="known")
                 return fl is not None
     return True
@@ -1793,9 +1963,8 @@ def _replay_failure(ctx, fj):
         return None
     if inp.get("kind") == "introspected":
         path = ctx.tmpfile("c12-replay-intro.nix")
-        f1 = nixio.File.open(path, nixio.FileMode.Overwrite)
+        f1, c1 = _scene_file(ctx, path)
         try:
-            c1 = _quiet(lambda: _build(f1))
             for lab, call, retry in _introspected(c1)[0]:
                 if lab == inp.get("label"):
                     fl, _ = _check_call(f1, c1, lab, call, retry)
@@ -1803,11 +1972,7 @@ def _replay_failure(ctx, fj):
                         fl.input = inp
                     return fl
         finally:
-            try:
-                f1.close()
-            except Exception:       # noqa
-                pass
-            os.remove(path)
+            _close_scene(f1, c1, path)
         return None
     if inp.get("kind") == "sweep":
         return _replay_sweep(ctx, inp)
